@@ -11,6 +11,11 @@ var commonAssumptions = []string{
 }
 
 func init() {
+	property(&Property{ID: "C13",
+		Rules: []string{"T1", "T2", "T3", "T4"},
+		Explanation: "Decides who resolves the project, where it flows and where it filters, not the outcome of webhook-based authorisation. Decided: every call of the wrapped handler in the three service interceptors is reachable only past that service's authentication (API key → project for Yorkie, token/secret for Admin with exactly four exempt procedures, constant-time cluster secret for Cluster) (T4); in every SDK-facing handler each project component of a ref key and each projectID argument comes from the project the interceptor put in the context, never from a request field (T1); records fetched by bare id (revisions, invites — computed from the Database interface) are compared with the caller's project, and revisions also with the authorised document, before any success (T2); every memory-backend Database method with a project-scoping parameter filters by it (comparison, CheckIfInProject, index argument, stored ProjectID), with the document-id-keyed secondary tables exempt by name and their call sites checked to pass a resolved record's key (T3). Not decided: the MongoDB backend's filters (analysable but not reproducible here), per-document authorisation webhooks.",
+		Assumptions: commonAssumptions,
+	})
 	property(&Property{ID: "C12",
 		Rules: []string{"P.strip", "P.flag", "O1.pipeline"},
 		Explanation: "Decides where presence is stripped and where the flag comes from, not the equality of presence maps over histories. Decided: with DisablePresence set every path to the log append passes the strip, whose result is what is pushed; the strip drops presence-only changes and clears presence on mixed ones; pulled changes go out with presence only for documents that allow it, cleared on a copy otherwise; snapshots (pulled and stored) carry no presence for presenceless documents (P.strip); every PushPullOptions takes the flag from the persisted DocInfo; presence rides in the ordered change and is applied for the author, deleted on Clear; the server-side detach clears presence first (P.flag); validation ≺ strip ≺ push (O1.pipeline). Not decided: convergence of presence maps (it follows the change order, C04), the client SDK's own detach.",
